@@ -182,7 +182,7 @@ pub fn drive(a: &Args) {
     let mut rng = StdRng::seed_from_u64(seed ^ 0x50c2_0006);
     let mut calls = 0u64;
     let mut sample = json!(null);
-    let kinds = ["udp", "unix", "budp", "bunix", "bunix-nb", "unix-nb", "budp-default", "q-budp", "bunix-default"];
+    let kinds = ["udp", "unix", "budp", "bunix", "bunix-nb", "unix-nb", "budp-default", "q-budp", "bunix-default", "udp-nb", "budp-nb", "spy"];
     for run in 0..runs {
         let kind = kinds[(run as usize) % kinds.len()];
         let caps = [0usize, 1, 5, 16, 40, 64, 100, 512, 1432, 70_000];
@@ -191,12 +191,23 @@ pub fn drive(a: &Args) {
         let nonblock = kind.ends_with("-nb");
         let mut weak: Option<std::sync::Weak<BufferedUdpMetricSink>> = None;
         let (wire, sink, mcap): (Wire, Box<dyn MetricSink + Send + Sync>, usize) = match kind {
-            "udp" => {
+            "spy" => {
+                // the unbuffered spy sink: one message per emit, a bounded channel refuses when it is full
+                let (rx, s) = cadence::SpyMetricSink::with_capacity(3);
+                (Wire::Spy(rx), Box::new(s), 0)
+            }
+            "udp" | "udp-nb" => {
                 let (w, addr, s) = udp_wire();
+                if nonblock {
+                    s.set_nonblocking(true).unwrap();
+                }
                 (w, Box::new(UdpMetricSink::from(&addr[..], s).unwrap()), 0)
             }
-            "budp" => {
+            "budp" | "budp-nb" => {
                 let (w, addr, s) = udp_wire();
+                if nonblock {
+                    s.set_nonblocking(true).unwrap();
+                }
                 (w, Box::new(BufferedUdpMetricSink::with_capacity(&addr[..], s, cap).unwrap()), cap)
             }
             "budp-default" => {
@@ -238,7 +249,7 @@ pub fn drive(a: &Args) {
         let mut outstanding: VecDeque<Pending> = VecDeque::new();
         let mut sink = Some(sink);
         let mut seq = 0u64;
-        let errkind = if kind.contains("udp") { "Uncategorized" } else { "WouldBlock" };
+        let errkind = if kind.contains("udp") { "Uncategorized" } else if kind == "spy" { "Other" } else { "WouldBlock" };
         let mut stray = 0usize;
         let mut missed = false;
         take_hooks();
@@ -288,8 +299,13 @@ pub fn drive(a: &Args) {
                     evs.push(json!(null));
                 }
             }
+            if kind == "spy" {
+                // no attempt hook in the unbuffered spy sink: an emit is one attempt of exactly the metric
+                outstanding.push_back(Pending { ix: evs.len(), len: text.len() });
+                evs.push(json!(null));
+            }
             // a non-blocking Unix receiver is left undrained most of the time so that its queue fills up
-            let drain_now = !nonblock || rng.random_bool(0.15);
+            let drain_now = !((nonblock && kind.contains("unix")) || kind == "spy") || rng.random_bool(0.15);
             // sockets that used to be at the path are emptied at once (a blocking sender must never wait on them)
             {
                 let mut b = [0u8; 2048];
@@ -318,13 +334,15 @@ pub fn drive(a: &Args) {
                     break;
                 }
             }
-            if drain_now {
+            if drain_now && kind != "spy" {
                 evs.push(stats_ev(&sink.as_ref().unwrap().stats()));
             }
         }
         let got = wire.drain(0, Duration::from_millis(20));
         stray += resolve(&mut evs, &mut outstanding, got, errkind).len();
-        evs.push(stats_ev(&sink.as_ref().unwrap().stats()));
+        if kind != "spy" {
+            evs.push(stats_ev(&sink.as_ref().unwrap().stats()));
+        }
         evs.push(json!({"ev":"call","op":"drop","hex":"","len":0}));
         let r = catch_unwind(AssertUnwindSafe(|| drop(sink.take())));
         if let Some(w) = &weak {
